@@ -5,7 +5,7 @@ static bool doRolandSysEx(unsigned dev, const uint8_t *data, size_t size);
 static bool doYamahaSysEx(unsigned dev, const uint8_t *data, size_t size);
 #include "extracted.c"
 
-uint8_t in_msg[64]; size_t g_ch; MIDIchannel g_chan_before;
+uint8_t in_msg[64]; MIDIchannel g_table_before[ENV_N_MIDI_CHANNELS];
 #define REACH(cond, name) __CPROVER_assert(!(cond), "REACH " name)
 uint8_t nondet_u8(void); size_t nondet_size(void); _Bool nondet_bool(void);
 
@@ -13,7 +13,7 @@ void h_realTime_SysEx(void)
 {
     const uint8_t *msg; size_t size = nondet_size();
     for(int i = 0; i < 64; i++) in_msg[i] = nondet_u8();
-    g_ch = nondet_size();
+    
     g_play.hooks.onDebugMessage = nondet_bool() ? env_debug_hook : NULL;   /* the two hook states of the environment */
     bool r = realTime_SysEx(msg, size);
     REACH(r, "accepted"); REACH(!r, "rejected");
